@@ -29,6 +29,11 @@ type C15W struct {
 	CfgBits    uint32     `json:"cfg_bits"`        // subset: requested handlers; extra: one unimplemented handler bit
 	Senders    [][]C15Msg `json:"senders"`         // concurrent sender tasks of the runtime end
 	Empty      bool       `json:"empty,omitempty"` // a plugin with no handler at all: stub.New must reject it
+	// Restart: after the first session the same stub is stopped and started again on a fresh
+	// connection, the Configure handler answering CfgKind2/CfgBits2 this time.
+	Restart  bool   `json:"restart,omitempty"`
+	CfgKind2 string `json:"cfg_kind2,omitempty"`
+	CfgBits2 uint32 `json:"cfg_bits2,omitempty"`
 }
 
 func c15Gen(rng *rand.Rand, conf string, idx int) any {
@@ -61,6 +66,16 @@ func c15Gen(rng *rand.Rand, conf string, idx int) any {
 				w.CfgKind = "zero"
 			} else {
 				w.CfgBits = w.Mask&uint32(rng.Intn(8192)) | 1<<uint(pick(rng, free))
+			}
+		}
+	}
+	if w.Configured && w.CfgKind != "extra" && rng.Intn(2) == 0 {
+		w.Restart = true
+		w.CfgKind2 = pick(rng, []string{"zero", "subset"})
+		if w.CfgKind2 == "subset" {
+			w.CfgBits2 = w.Mask & uint32(rng.Intn(8192))
+			if w.CfgBits2 == 0 {
+				w.CfgBits2 = w.Mask
 			}
 		}
 	}
@@ -376,6 +391,79 @@ func c15Run(t *testing.T, wl any, sc SchedCfg) *Result {
 		res.Nontrivial = handled > 0
 		if w.Configured {
 			res.Probe("C15.configure-handler." + w.CfgKind)
+		}
+		if w.Restart {
+			// second session of the same stub instance
+			var requested2 api.EventMask
+			for i, n := range c15types.Names {
+				if w.CfgBits2>>uint(i)&1 == 1 {
+					requested2 |= EventBit(n)
+				}
+			}
+			want2 := implemented
+			rec.CfgMask = 0
+			if w.CfgKind2 == "subset" {
+				rec.CfgMask, want2 = requested2, requested2
+			}
+			var err2 error
+			e.Task("restart", func() {
+				st.Stop()
+				e.S.Settle("restart")
+				err2 = st.Start(context.Background())
+			})
+			if err := e.RunUntil(300000, func() bool {
+				return e.TasksDone() && (err2 != nil || (len(h.Ends) == 2 && h.Ends[1].IsReady()))
+			}); err != nil {
+				res.Violate("C15.restart", "restart of the stub did not finish: %v; pending %v", err, e.S.Pending())
+				return
+			}
+			res.Probe("C15.restart." + w.CfgKind + "-then-" + w.CfgKind2)
+			if err2 != nil {
+				res.Violate("C15.mask", "plugin implements %s; first session configured %s %#x; restarted with %s %#x (all within the implemented events): Start failed: %v", handlerNames(w.Mask), w.CfgKind, uint32(requested), w.CfgKind2, uint32(requested2), err2)
+				return
+			}
+			end2 := h.Ends[1]
+			if api.EventMask(end2.Events) != want2 {
+				res.Violate("C15.mask", "plugin implements %s; first session configured %s %#x; after a restart with %s %#x the subscribed mask is %#x, want %#x", handlerNames(w.Mask), w.CfgKind, uint32(requested), w.CfgKind2, uint32(requested2), end2.Events, uint32(want2))
+			}
+			// one message per implemented handler must still reach it
+			before := len(rec.Snapshot())
+			nsent := 0
+			e.Task("sender-restart", func() {
+				for hd := 0; hd < 13; hd++ {
+					if w.Mask>>uint(hd)&1 == 0 {
+						continue
+					}
+					name := c15types.Names[hd]
+					id := fmt.Sprintf("y%d", hd)
+					pod := c15Pod(id, hd)
+					var ctr *api.Container
+					if !IsPodEvent(name) {
+						ctr = c15Ctr(id, hd)
+					}
+					nsent++
+					ctx := context.Background()
+					switch name {
+					case "CreateContainer":
+						end2.PC.CreateContainer(ctx, &api.CreateContainerRequest{Pod: pod, Container: ctr})
+					case "UpdateContainer":
+						end2.PC.UpdateContainer(ctx, &api.UpdateContainerRequest{Pod: pod, Container: ctr})
+					case "StopContainer":
+						end2.PC.StopContainer(ctx, &api.StopContainerRequest{Pod: pod, Container: ctr})
+					case "UpdatePodSandbox":
+						end2.PC.UpdatePodSandbox(ctx, &api.UpdatePodSandboxRequest{Pod: pod})
+					default:
+						end2.PC.StateChange(ctx, &api.StateChangeEvent{Event: api.Event(api.Event_value[eventEnumName(name)]), Pod: pod, Container: ctr})
+					}
+				}
+			})
+			if err := e.RunUntil(300000, func() bool { return e.TasksDone() }); err != nil {
+				res.Violate("C15.restart", "messages of the second session were not answered: %v", err)
+				return
+			}
+			if got := len(rec.Snapshot()) - before; got != nsent {
+				res.Violate("C15.dispatch", "after the restart %d messages were sent to implemented handlers, %d handler invocations happened", nsent, got)
+			}
 		}
 		res.Summary = map[string]any{"handlers": handlerNames(w.Mask), "subscribed_mask": end.Events, "messages": len(sent), "delivered_to_a_handler": handled}
 	})
